@@ -31,12 +31,18 @@ inductive IsLexeme : Nat → List Char → Prop
       inCls floatStart c = true →
       j < Gen.lexTable.size → fullOn j (c :: t) = true → (∀ i, i < Gen.lexTable.size → fullOn i (c :: t) = true → i ≤ j) →
       IsLexeme j (c :: t)
+  | int (c : Char) (t : List Char) : isDigit c = true → (∀ d ∈ t, isDigit d = true) → IsLexeme intIdx (c :: t)
+  | shared (j a o : Nat) : (j, a, o) ∈ sharedEntries → IsLexeme j [Char.ofNat a]
 
 /-- what may follow a printed lexeme: nothing, or a blank -/
 def BlankHead (rest : List Char) : Prop := ∀ d u, rest = d :: u → d = ' '
 
 theorem blank_not_identPart : isIdentPart ' ' = false := by decide
 theorem blank_not_float : inCls floatChars ' ' = false := by decide +kernel
+
+/-- a blank cannot continue a number that begins with `-` or `.` (kernel evaluation over the entries of `sharedEntries`) -/
+theorem sharedBlank_ok : sharedEntries.all (fun e => !inCls (firstCls (deriv Gen.lexTable[e.2.2]!.1 (Char.ofNat e.2.1))) ' ') = true := by
+  decide +kernel
 
 theorem IsLexeme.tokenAt {j : Nat} {w : List Char} (h : IsLexeme j w) (rest : List Char) (hr : BlankHead rest) :
     TokenAt (w ++ rest) j w rest := by
@@ -52,9 +58,17 @@ theorem IsLexeme.tokenAt {j : Nat} {w : List Char} (h : IsLexeme j w) (rest : Li
     exact TokenAt.ann c t rest hc ht (fun d u h => by rw [hr d u h]; exact blank_not_identPart)
   | number c t j hc hj hjf hmax =>
     exact TokenAt.number c t rest j hc (fun d u h => by rw [hr d u h]; exact blank_not_float) hj hjf hmax
+  | int c t hc ht =>
+    exact TokenAt.int c t rest hc ht (fun d u h => by rw [hr d u h]; exact blank_not_float)
+  | shared j a o hmem =>
+    exact TokenAt.shared j a o rest hmem (fun d u h => by
+      rw [hr d u h]
+      have := List.all_eq_true.mp sharedBlank_ok (j, a, o) hmem
+      simpa using this)
 
 theorem ws_disjoint_identStart : disjointCls identStartCls wsCls = true := by decide
 theorem ws_disjoint_floatStart : disjointCls floatStart wsCls = true := by decide +kernel
+theorem ws_disjoint_digit : disjointCls digitCls wsCls = true := by decide
 
 /-- a lexeme does not begin with white space -/
 theorem IsLexeme.head_not_ws {j : Nat} {w : List Char} (h : IsLexeme j w) : ∃ c t, w = c :: t ∧ isWsChar c = false := by
@@ -81,6 +95,32 @@ theorem IsLexeme.head_not_ws {j : Nat} {w : List Char} (h : IsLexeme j w) : ∃ 
   | str body _ => exact ⟨'"', body ++ ['"'], rfl, by decide⟩
   | ann c t _ _ => exact ⟨'@', c :: t, rfl, by decide⟩
   | number c t j hc _ _ _ => exact ⟨c, t, rfl, disjoint_sound _ _ ws_disjoint_floatStart c hc⟩
+  | int c t hc _ => exact ⟨c, t, rfl, disjoint_sound _ _ ws_disjoint_digit c hc⟩
+  | shared j a o hmem =>
+    refine ⟨Char.ofNat a, [], rfl, ?_⟩
+    obtain ⟨hj, hent, hval, hoj, hnn, _, hall⟩ := shared_facts j a o hmem
+    have hnej : wsIdx ≠ j := by
+      intro h
+      have h1 := wsIdx_entry.2
+      rw [h, hent] at h1
+      cases h1
+    have hneo : wsIdx ≠ o := by
+      intro h
+      have h1 := wsIdx_entry.2
+      rw [← h] at hnn
+      rw [h1] at hnn
+      revert hnn; decide
+    have hw := List.all_eq_true.mp hall wsIdx (List.mem_range.mpr wsIdx_entry.1)
+    simp only [Bool.or_eq_true, beq_iff_eq] at hw
+    rcases hw with (h' | h') | h'
+    · exact absurd h' hnej
+    · exact absurd h' hneo
+    · rw [wsIdx_entry.2] at h'
+      have hin : inCls [(a, a)] (Char.ofNat a) = true := by
+        unfold inCls
+        simp only [List.any_cons, List.any_nil, Bool.or_false, Bool.and_eq_true, decide_eq_true_eq]
+        omega
+      exact disjoint_sound _ _ h' _ hin
 
 /-- the lexemes printed with single blanks between them -/
 def unlex : List (Nat × List Char) → List Char
@@ -141,6 +181,44 @@ theorem unlex_layouts_same_tree (env1 env2 : Env) (id1 id2 text1 text2 : String)
       ∧ addContentE Driver.Parse.tables env2 id2 text2 = .ok r2
       ∧ r1.ast.map erAidl = r2.ast.map erAidl :=
   relayout_same_tree env1 env2 id1 id2 text1 text2 hE1 hE2 _ (by rw [hprint]; exact lex_unlex ls h) h2
+
+/-! ### the one-blank print is a normal form -/
+
+theorem isLexeme_of_tokenAt {s w rest : List Char} {j : Nat} (h : TokenAt s j w rest) : IsLexeme j w := by
+  cases h with
+  | word c t rest j hc ht _ hj hjf hmax => exact IsLexeme.word c t j hc ht hj hjf hmax
+  | punct j a c rest hmem hc => exact IsLexeme.punct j a c hmem hc
+  | str body rest hb => exact IsLexeme.str body hb
+  | ann c t rest hc ht _ => exact IsLexeme.ann c t hc ht
+  | int c t rest hc ht _ => exact IsLexeme.int c t hc ht
+  | number c t rest j hc _ hj hjf hmax => exact IsLexeme.number c t j hc hj hjf hmax
+  | shared j a o rest hmem _ => exact IsLexeme.shared j a o hmem
+
+/-- the lexemes of a text of the specification, each a lexeme on its own -/
+theorem lexemes_of_lexesTo {s : List Char} {toks : List (Nat × String)} (h : LexesTo s toks) :
+    ∃ ls : List (Nat × List Char), (∀ l ∈ ls, IsLexeme l.1 l.2) ∧ toks = ls.map fun l => (l.1, String.ofList l.2) := by
+  induction h with
+  | eof s _ => exact ⟨[], ⟨fun _ h => (by cases h), rfl⟩⟩
+  | tok s s' w rest j toks _ ht _ ih =>
+    obtain ⟨ls, hl, htoks⟩ := ih
+    refine ⟨(j, w) :: ls, ⟨fun l hm => ?_, by rw [htoks]; rfl⟩⟩
+    rcases List.mem_cons.mp hm with h | h
+    · rw [h]; exact isLexeme_of_tokenAt ht
+    · exact hl l h
+
+/-- **Normal form**: every text of the specification has the tree (up to positions and documentation) of the text that
+    prints its lexemes with single blanks — whatever white space, line endings and comments it contains. -/
+theorem canonical_same_tree (env1 : Env) (id1 text1 : String) (hE1 : EnvOk env1 text1.toList) (toks : List (Nat × String))
+    (h1 : LexesTo text1.toList toks) :
+    ∃ ls : List (Nat × List Char), (∀ l ∈ ls, IsLexeme l.1 l.2) ∧ toks = (ls.map fun l => (l.1, String.ofList l.2)) ∧
+      ∀ (env2 : Env) (id2 text2 : String), text2.toList = unlex ls → EnvOk env2 text2.toList →
+        ∃ r1 r2, addContentE Driver.Parse.tables env1 id1 text1 = .ok r1
+          ∧ addContentE Driver.Parse.tables env2 id2 text2 = .ok r2
+          ∧ r1.ast.map erAidl = r2.ast.map erAidl := by
+  obtain ⟨ls, hl, htoks⟩ := lexemes_of_lexesTo h1
+  refine ⟨ls, hl, htoks, fun env2 id2 text2 hprint hE2 => ?_⟩
+  obtain ⟨r2, r1, h2, h1', heq⟩ := unlex_layouts_same_tree env2 env1 id2 id1 text2 text1 ls hl hprint hE2 hE1 (by rw [← htoks]; exact h1)
+  exact ⟨r1, r2, h1', h2, heq.symm⟩
 
 /-! ### non-vacuity -/
 
